@@ -62,6 +62,15 @@ def gen_domain(rnd):
             hs.insert(rnd.randint(0, len(hs)), ('Content-Transfer-Encoding', rnd.choice(['7bit', '8bit', 'base64', 'quoted-printable', 'binary'])))
         if rnd.random() < 0.5:
             hs.insert(0, ('MIME-Version', '1.0'))
+    if rnd.random() < 0.3:
+        # a first line and a continuation line at and just under the 78-byte limit of the statement's domain
+        name = rnd.choice(NAMES)
+        L1, L2 = rnd.choice([78, 77, 76, 75, 74]), rnd.choice([78, 77, 76, 75, 60])
+        w1 = ('x' * 200)[:L1 - len(name) - 2]
+        w2 = ('y' * 200)[:L2 - 1]
+        if rnd.random() < 0.5:
+            w1 = w1[:-3] + u'\xe9z' + 'q'
+        hs.insert(rnd.randint(0, len(hs)), (name, w1 + eol + rnd.choice([' ', '\t']) + w2 if rnd.random() < 0.6 else w1))
     enc = rnd.choice(['utf-8', 'latin-1'])
     hb = ''.join('%s: %s%s' % (n, v, eol) for n, v in hs).encode(enc)
     if any(len(l) > 78 for l in re.split(b'\r?\n', hb)):
@@ -89,8 +98,19 @@ def seven_bit(rnd):
         cte = b''          # (an ASCII body under such a label would be decoded by the label: nothing to judge)
     hdr = b'Subject: t\r\nMIME-Version: 1.0\r\nContent-Type: text/plain; charset="utf-8"\r\n' + cte + b'\r\n'
     ev = []
+    reuse = rnd.random() < 0.4
     for name, enc in (('base64', encoders.encode_base64), ('qp', encoders.encode_quopri), ('none', None)):
         e = Envelope('s', ['r'])
+        if reuse:
+            # the same Envelope object carried an ASCII message before (parsed, converted - nothing to do - and perhaps copied
+            # or pickled): what it is asked to convert now is the message it holds now
+            e.parse(b'Subject: earlier\r\nContent-Type: text/plain; charset="us-ascii"\r\n\r\nplain ascii\r\n')
+            try:
+                e.encode_7bit(enc)
+            except Exception:  # noqa
+                pass
+            if rnd.random() < 0.5:
+                e = rnd.choice([lambda x: x.copy(), lambda x: pickle.loads(pickle.dumps(x, pickle.HIGHEST_PROTOCOL))])(e)
         e.parse(hdr + body)
         before = e.flatten()
         rec = {'t': '7bit', 'enc': name, 'eightbit': not body.isascii(), 'refused': False, 'ascii': False, 'same': False,
